@@ -1,3 +1,22 @@
--- stub: the driver of C04 is not built yet
 import WmModel.Basic
-def main : IO Unit := Wm.driverMain (fun _ => "bad-op")
+import WmModel.GcConf
+import WmModel.GcMon
+open Wm
+
+/-- `sub` streams: model = conformance with M_sub (subset construction), no property verdict of its own here;
+    `top` traces: monitor = the C04 clauses of GcMon (the statement of the property on the recorded execution). -/
+def handle (line : String) : String :=
+  let req := match line.splitOn " ## " with
+    | [r, _] => r
+    | _ => line
+  match req.splitOn " " with
+  | "M" :: "sub" :: cap :: toks =>
+    match cap.toNat? with
+    | some c => GcConf.checkSub c (if toks == ["-"] then [] else toks)
+    | none => "bad-op"
+  | "P" :: "sub" :: _ => "ok"
+  | "M" :: "top" :: _ => "ok"
+  | "P" :: "top" :: toks => GcMon.runMon GcMon.monC04 toks
+  | _ => "bad-op"
+
+def main : IO Unit := driverMain handle
